@@ -13,6 +13,7 @@ import (
 	"os/exec"
 	"path/filepath"
 	"runtime"
+	"strconv"
 	"strings"
 	"syscall"
 	"time"
@@ -30,6 +31,7 @@ type c05 struct{}
 func init() {
 	fw.Register(c05{})
 	childRoles["c05"] = c05Child
+	childRoles["c05ro"] = c05ReadOnlyChild
 }
 
 func (c05) Meta() fw.Meta {
@@ -49,7 +51,7 @@ func (c05) Meta() fw.Meta {
 			"kills that land inside a Sync (last record sync-begin) are counted but not judged: the property speaks of points between Syncs",
 			"clock domain as C01",
 		},
-		Obligations: []string{"ops_with_byte_check", "syncs", "observer_windows_compared", "page_straddle_slot_dirtied", "sync_noncontiguous_dirty_pages", "abandon_prefixes", "kills_between_syncs", "kills_before_first_sync", "cli_failed_copy_dest_unchanged", "unsynced_dirty_state_checked", "damaged_file_histories", "failed_updates_before_sync", "waiting_opener_trials", "waiting_opener_had_to_wait", "bulk_batches", "handles_dropped_and_collected", "histories_on_a_handle_without_flock"},
+		Obligations: []string{"ops_with_byte_check", "syncs", "observer_windows_compared", "page_straddle_slot_dirtied", "sync_noncontiguous_dirty_pages", "abandon_prefixes", "kills_between_syncs", "kills_before_first_sync", "cli_failed_copy_dest_unchanged", "unsynced_dirty_state_checked", "damaged_file_histories", "failed_updates_before_sync", "waiting_opener_trials", "waiting_opener_had_to_wait", "bulk_batches", "handles_dropped_and_collected", "histories_on_a_handle_without_flock", "opens_of_a_file_without_its_tail", "unprivileged_sessions_on_a_read_only_file"},
 		Workers:     12,
 	}
 }
@@ -449,6 +451,21 @@ func (c05) Run(c *fw.Ctx) {
 		how := "Close, no Sync"
 		if n%2 == 0 {
 			d2.Close() // abandoned
+			if unsyncedWrites > 0 && n%4 == 0 {
+				// a Sync that comes too late (the handle is closed) cannot have written the pending changes: it must say so
+				if err := d2.Sync(); err == nil {
+					if cur, _ := ioutil.ReadFile(p2); true {
+						if _, fraw, perr := model.ParseFile(cur); perr == nil {
+							if hraw, herr := rawOf(d2); herr != nil || model.EqualSlots(fraw[0], hraw[0]) >= 0 {
+								c.Violationf("sync-reports-success-without-writing", fw.J{"layout": l, "prefix": n, "unsynced_writes": unsyncedWrites}, "Sync on a handle closed with %d unsynced writes returned nil, but the file does not hold the handle's state", unsyncedWrites)
+								os.Remove(p2)
+								return
+							}
+						}
+					}
+				}
+				c.Count("syncs_after_close", 1)
+			}
 		} else {
 			// dropped without Close: the handle becomes garbage and the collector runs (twice, finalizers in between)
 			how = "dropped without Close, then GC"
@@ -479,6 +496,41 @@ func (c05) Run(c *fw.Ctx) {
 		os.Remove(p2)
 	}
 
+	// ---- monitor 2c: a file that lost its tail (complete header, short data area): whatever Open says, opening it
+	// changes neither its length nor a byte of it
+	if c.Index%4 == 1 && len(synced) > int(l.HeaderSize())+24 {
+		p4 := filepath.Join(c.TmpDir(), "c05-short.wsp")
+		cut := synced[:int(l.HeaderSize())+12+r.Intn(len(synced)-int(l.HeaderSize())-12)]
+		if err := ioutil.WriteFile(p4, cut, 0644); err != nil {
+			panic(err)
+		}
+		if h, err := wt.Open(p4); err == nil {
+			h.Close()
+		}
+		after, _ := ioutil.ReadFile(p4)
+		c.Count("opens_of_a_file_without_its_tail", 1)
+		os.Remove(p4)
+		if !bytes.Equal(after, cut) {
+			c.Violationf("open-changed-file", fw.J{"layout": l, "length_before": len(cut), "length_after": len(after)}, "Open of a file that lost its tail changed it (length %d -> %d) although nothing was synced", len(cut), len(after))
+			return
+		}
+	}
+	// ---- monitor 2d: a file the process may read but not write (mode 0444, process uid 65534): if a handle can be had
+	// at all, a successful Sync on it means the file holds the handle's state
+	if c.Index%8 == 3 {
+		p5 := filepath.Join(c.TmpDir(), "c05-readonly.wsp")
+		ioutil.WriteFile(p5, synced, 0444)
+		os.Chmod(p5, 0444)
+		chmodUp(c.TmpDir(), filepath.Dir(filepath.Dir(c.Env.Tmp)))
+		out, err := exec.Command(os.Args[0], "child", "c05ro", p5, strconv.FormatInt(now, 10)).CombinedOutput()
+		c.Count("unprivileged_sessions_on_a_read_only_file", 1)
+		if strings.Contains(string(out), "SYNC-OK-BUT-FILE-UNCHANGED") {
+			c.Violationf("sync-reports-success-without-writing", fw.J{"layout": l, "child_output": truncStr(string(out), 500)}, "a process that may only read the file opened it, updated it and Sync returned nil - the file is unchanged")
+			return
+		}
+		_ = err
+		os.Remove(p5)
+	}
 	// ---- monitor 2b: a handle whose Open had to wait for the lock of a handle with unsynced changes
 	if c.Index%2 == 0 {
 		p3 := filepath.Join(c.TmpDir(), "c05-wait.wsp")
@@ -795,4 +847,42 @@ func c05Bulk(c *fw.Ctx) bool {
 		}
 	}
 	return true
+}
+
+// c05ReadOnlyChild (child role c05ro): drops to uid 65534 and tries a session on a file it may only read.
+func c05ReadOnlyChild(args []string) int {
+	if len(args) < 2 {
+		return 2
+	}
+	path := args[0]
+	now, _ := strconv.ParseInt(args[1], 10, 64)
+	if err := syscall.Setgid(65534); err != nil {
+		fmt.Println("setgid:", err)
+	}
+	if err := syscall.Setuid(65534); err != nil {
+		fmt.Println("setuid:", err)
+		return 0
+	}
+	before, _ := ioutil.ReadFile(path)
+	db, err := wt.Open(path)
+	if err != nil {
+		fmt.Println("OPEN-REFUSED:", err)
+		return 0
+	}
+	defer db.Close()
+	if err := db.UpdatePointForArchive(0, u32(now), 424242.5, u32(now)); err != nil {
+		fmt.Println("UPDATE-REFUSED:", err)
+		return 0
+	}
+	if err := db.Sync(); err != nil {
+		fmt.Println("SYNC-REFUSED:", err)
+		return 0
+	}
+	after, _ := ioutil.ReadFile(path)
+	if bytes.Equal(before, after) {
+		fmt.Println("SYNC-OK-BUT-FILE-UNCHANGED")
+	} else {
+		fmt.Println("SYNC-OK-FILE-WRITTEN")
+	}
+	return 0
 }
